@@ -135,6 +135,13 @@ pub fn exec(case: &str) -> Exec {
     if !vp.is_empty() { return ex; } // the round trip is promised only for what PDB validation accepts
     let has_dbref = pdb.chains().any(|c| c.database_reference().is_some());
     let seqres = lvl == "Strict" || has_dbref;
+    // values no DBREF / DBREF1 / DBREF2 column can hold (the long form is chosen by the writer for an accession
+    // of more than 8, an id of more than 12 characters or a database position above 99999)
+    let dbref_beyond = pdb.chains().filter_map(|c| c.database_reference()).any(|d| {
+        let long = d.database.acc.len() > 8 || d.database.id.len() > 12 || d.database_position.start > 99_999 || d.database_position.end > 99_999;
+        d.database.name.len() > 6 || d.database.id.len() > 20 || d.database.acc.len() > 22
+            || (long && (d.database_position.start_insert.is_some() || d.database_position.end_insert.is_some()))
+    });
     // the writer documents one default: a unit cell without space group is written as "P 1"
     let mut wpdb = pdb.clone();
     if wpdb.unit_cell.is_some() && wpdb.symmetry.is_none() { wpdb.symmetry = Symmetry::from_index(1); }
@@ -147,7 +154,7 @@ pub fn exec(case: &str) -> Exec {
     for (text, seqres) in variants {
     for rl in crate::c07::LEVELS {
         let o = Opts { level: rl, discard_h: false, first_only: false, atomic_only: false };
-        let feats = |f: Failure| f.feat("writer_level", &lvl).feat("reader_level", crate::c07::level_name(rl)).feat("seqres_written", seqres).feat("seqres_lines_removed", text.len() != bytes.len()).feat("has_dbref", has_dbref)
+        let feats = |f: Failure| f.feat("writer_level", &lvl).feat("reader_level", crate::c07::level_name(rl)).feat("seqres_written", seqres).feat("seqres_lines_removed", text.len() != bytes.len()).feat("has_dbref", has_dbref).feat("dbref_beyond_columns", dbref_beyond)
             .feat("identifier_len", pdb.identifier.as_ref().map_or(4, |s| s.len())).feat("long_remark", pdb.remarks().any(|x| x.1.len() >= 69))
             .feat("sg_index", pdb.symmetry.as_ref().map_or(0, |s| s.index())).feat("sg_symbol_len", pdb.symmetry.as_ref().map_or(0, |s| s.herman_mauguin_symbol().len()));
         match read("pdb", &o, text) {
